@@ -1,4 +1,4 @@
-package c01
+package crashkit
 
 import (
 	"bytes"
@@ -72,6 +72,73 @@ func scriptWAL() []step {
 	s = append(s, step{Kind: "dequeue", Batch: 3}, step{Kind: "checkpoint"}, step{Kind: "ackbatch", Leases: []int{0, 1}}, step{Kind: "nack", Lease: 2, Delay: "0s"},
 		step{Kind: "checkpoint"}, step{Kind: "ingress", Route: "/f", Payload: "w9", Targets: fanTargets}, step{Kind: "dequeue", Batch: 2}, step{Kind: "nackdead", Lease: 3})
 	return s
+}
+
+// scenario "lease": messages are leased, extended, nacked with and without delay and dead-lettered while the
+// process dies at every point (C05: every unsettled message becomes visible again after a crash).
+func scriptLease() []step {
+	return []step{
+		{Kind: "ingress", Route: "/p", Payload: "l1", Targets: []string{"pull"}},
+		{Kind: "ingress", Route: "/p", Payload: "l2", Targets: []string{"pull"}},
+		{Kind: "ingress", Route: "/p", Payload: "l3", Targets: []string{"pull"}},
+		{Kind: "dequeue", Batch: 2},
+		{Kind: "extend", Lease: 0},
+		{Kind: "nack", Lease: 1, Delay: "0s"},
+		{Kind: "dequeue", Batch: 2},
+		{Kind: "extend", Lease: 2},
+		{Kind: "nack", Lease: 3, Delay: "5s"},
+		{Kind: "checkpoint"},
+		{Kind: "dequeue", Batch: 1},
+		{Kind: "nackdead", Lease: 0},
+	}
+}
+
+// Generated histories: every sequence of the given length over the operation alphabet below ("every mix of
+// ingress/publish/pull traffic before the crash"). Lease -1 = the oldest lease not used by an earlier step; when
+// there is none the step is skipped (recorded in the side log).
+var genAlphabet = []string{"ingress-pull", "ingress-fanout", "publish", "dequeue", "ack", "nack", "nackdead"}
+
+// GenCount returns the number of generated histories of the given length.
+func GenCount(length int) int {
+	n := 1
+	for i := 0; i < length; i++ {
+		n *= len(genAlphabet)
+	}
+	return n
+}
+
+func scriptGen(length, index int) []step {
+	var out []step
+	for i := 0; i < length; i++ {
+		k := genAlphabet[index%len(genAlphabet)]
+		index /= len(genAlphabet)
+		switch k {
+		case "ingress-pull":
+			out = append(out, step{Kind: "ingress", Route: "/p", Payload: fmt.Sprintf("g%d", i), Targets: []string{"pull"}})
+		case "ingress-fanout":
+			out = append(out, step{Kind: "ingress", Route: "/f", Payload: fmt.Sprintf("g%d", i), Targets: fanTargets})
+		case "publish":
+			out = append(out, step{Kind: "publish", Items: []pubItem{{fmt.Sprintf("y%da", i), "/p", fmt.Sprintf("py%da", i)}, {fmt.Sprintf("y%db", i), "/p", fmt.Sprintf("py%db", i)}}})
+		case "dequeue":
+			out = append(out, step{Kind: "dequeue", Batch: 2})
+		case "ack":
+			out = append(out, step{Kind: "ack", Lease: -1})
+		case "nack":
+			out = append(out, step{Kind: "nack", Lease: -1, Delay: "0s"})
+		case "nackdead":
+			out = append(out, step{Kind: "nackdead", Lease: -1})
+		}
+	}
+	return out
+}
+
+// scriptFor resolves a script name: a fixed scenario or "gen:<length>:<index>".
+func scriptFor(name string) []step {
+	var l, ix int
+	if n, _ := fmt.Sscanf(name, "gen:%d:%d", &l, &ix); n == 2 {
+		return scriptGen(l, ix)
+	}
+	return scripts[name]()
 }
 
 type leaseRef struct {
